@@ -8,7 +8,8 @@
    hypothesis says so. Tie: checks/c11.py (differential run of the extracted model against the Go
    functions, independent-verifier monitors on real signatures). *)
 From SL Require Import Base.Bytes Base.Cryptobyte Codec.Leaf Ckpt.Model
-  Ckpt.VerifierProofs Ckpt.Base64Proofs Ckpt.CodecProofs Ckpt.NameProofs Ckpt.NoteProofs.
+  Ckpt.VerifierProofs Ckpt.Base64Proofs Ckpt.CodecProofs Ckpt.NameProofs Ckpt.NoteProofs
+  Base.ReaderGen Gen.Readers Gen.Builders2 Ckpt.GenProofs.
 Open Scope N_scope.
 
 (* 1. what the note verifier of NewRFC6962Verifier checks, exactly: origin equality, no extension,
@@ -218,3 +219,36 @@ Proof.
           replace (is_valid_name (s2b "example.com/log")) with true by (vm_compute; reflexivity); reflexivity|].
   vm_compute. reflexivity.
 Qed.
+
+(* ---- the byte-level pieces as TRANSLATED from checkpoint.go / ctlog.go on every run ---- *)
+
+(* the RFC6962NoteSignature reader inside NewRFC6962Verifier's closure (Gen/Readers.v): on every blob it
+   yields exactly the (timestamp, signature algorithm, signature) of the model's parse_note_signature,
+   or rejects — including the "nothing after the signature" and "hash algorithm 4" clauses *)
+Theorem C11_note_signature_reader_code_is_model : forall blob,
+  nsig_result (gen_nsig blob) = parse_note_signature blob.
+Proof. exact gen_nsig_is_model. Qed.
+Print Assumptions C11_note_signature_reader_code_is_model.
+
+(* every rejection of that reader is the closure's `return false`; what follows the reader is the STH *)
+Theorem C11_note_signature_reader_rejections : forall blob,
+  match gen_nsig blob with Fail r => r = ret_false | Done r _ => r = ret_fragment_end | _ => False end.
+Proof. exact gen_nsig_rejects_with_false. Qed.
+Print Assumptions C11_note_signature_reader_rejections.
+
+(* RFC6962SignatureTimestamp: skip the key hash, then the model's reader *)
+Theorem C11_signature_timestamp_code_is_model : forall blob,
+  sigts_result (gen_sigts blob) =
+  match rd_bytes 4 blob with Some (_, r) => rfc6962_signature_timestamp r | None => None end.
+Proof. exact gen_sigts_is_model. Qed.
+Print Assumptions C11_signature_timestamp_code_is_model.
+
+(* digitallySign's and the injected signer's builders *)
+Theorem C11_digitally_sign_code_is_model : forall sig, gen_digitally_sign sig = digitally_signed x03 sig.
+Proof. exact gen_digitally_sign_is_model. Qed.
+Print Assumptions C11_digitally_sign_code_is_model.
+
+Theorem C11_injected_blob_code_is_model : forall sig ts,
+  gen_injected_blob sig (u64 ts) = Some (be 8 (u64 ts) ++ sig).
+Proof. exact gen_injected_blob_is_model. Qed.
+Print Assumptions C11_injected_blob_code_is_model.
